@@ -271,7 +271,13 @@ def judge(rec, txns, hostile, rnd, tmp, with_views):
         try:
             with contextlib.redirect_stdout(buf):
                 if sections:
-                    A.print_sections_summary(stats, year=2025, currency_format=cur)
+                    # --only <views> restricts which views are LISTED; the cash-flow block keeps reporting the analysed figures
+                    only = None
+                    if rnd.random() < .5:
+                        names = [n.lower() for n in stats['sections']]
+                        only = rnd.sample(names, rnd.randint(1, len(names))) if names else None
+                        rec.count('sections_renderings_with_only')
+                    A.print_sections_summary(stats, year=2025, currency_format=cur, only_filter=only)
                     rec.count('sections_renderings')
                 else:
                     A.print_summary(stats, year=2025, currency_format=cur, group_by=rnd.choice(['merchant', 'subcategory']))
@@ -292,7 +298,7 @@ def judge(rec, txns, hostile, rnd, tmp, with_views):
                 rec.violation('text-figure-differs:' + k + (':sections' if sections else ''), f'{k}: text {got!r} vs analysed {exp!r} (currency {cur!r})', case)
                 break
     # ---------------- HTML
-    for embedded in (True, False):
+    for embedded in rnd.sample([True, False], 2):        # either order: a report with external assets may be the first one a process writes
         out = os.path.join(tmp, 'r%d' % embedded)
         shutil.rmtree(out, ignore_errors=True)
         os.makedirs(out)
